@@ -136,9 +136,12 @@ def showTbqList (i : Nat) (l : List Sentence) : String :=
   s!"T{i}:[" ++ "|".intercalate (l.map fun s => hexOrDash s.raw) ++ "]"
 
 def showRun (idx : Bool) (r : AsmState × List StepOut) : String :=
-  let outs := r.2.zipIdx.flatMap fun (o, i) =>
-    let j := if idx then i else 0
-    (o.delivered.map (showDelivered j)) ++ (o.tbqOut.map (showTbqList j))
+  let outs :=
+    if idx then
+      r.2.zipIdx.flatMap fun (o, i) => (o.delivered.map (showDelivered i)) ++ (o.tbqOut.map (showTbqList i))
+    else
+      -- front-ends without input positions: all deliveries, then all tag-block-queue lists
+      (r.2.flatMap fun o => o.delivered.map (showDelivered 0)) ++ (r.2.flatMap fun o => o.tbqOut.map (showTbqList 0))
   let crash := match r.1.crash with
     | some e => ["CRASH:" ++ e.name]
     | none => []
@@ -310,6 +313,8 @@ def step (line : String) : String :=
         | [k, v] => some (k, if v = "N" then none else some (bytesOfHex v))
         | _ => none
       showExcept hexOrDash (tbCreate Generated.TAG_FIELD_CODES fields)
+  | ["reencode", c, b] =>
+      showExcept showBits (do let m ← fromBitarray env c (parseBits b); msgToBits env m)
   | ["create", c, kw] => showExcept showMsg (create env c (parseKw kw))
   | ["tobits", c, kw] => showExcept showBits (do let m ← create env c (parseKw kw); msgToBits env m)
   | ["encode_dict", t, c, kw] =>
